@@ -104,6 +104,7 @@ func c15Model(conn, reqIdx int, actions []string) (accept [][]string) {
 	afterFailure := "" // value that may still be visible after an intervening failed item (the statement does not say)
 	maybe := false
 	for i, a := range actions {
+		a = strings.TrimSuffix(a, "+ext")
 		val := fmt.Sprintf("c%dr%di%d", conn, reqIdx, i)
 		obs := []string{ph}
 		if maybe {
@@ -163,9 +164,15 @@ func c15Request(conn, reqIdx int, actions []string) *kmip.RequestMessage {
 	}
 	var pls []kmip.OperationPayload
 	for i, a := range actions {
-		pls = append(pls, &payloads.ActivateRequestPayload{UniqueIdentifier: fmt.Sprintf("c%dr%di%d#%s", conn, reqIdx, i, a)})
+		pls = append(pls, &payloads.ActivateRequestPayload{UniqueIdentifier: fmt.Sprintf("c%dr%di%d#%s", conn, reqIdx, i, strings.TrimSuffix(a, "+ext"))})
 	}
 	m := kmip.NewRequestMessage(kmip.V1_4, pls...)
+	for i, a := range actions {
+		if strings.HasSuffix(a, "+ext") {
+			// a non-critical message extension on the item does not change what the item does
+			m.BatchItem[i].MessageExtension = &kmip.MessageExtension{VendorIdentification: "verif", CriticalityIndicator: false}
+		}
+	}
 	return &m
 }
 
@@ -326,7 +333,7 @@ func c15Run(t *testing.T, c c15Case) (sig string, err error) {
 
 func TestC15Placeholder(t *testing.T) {
 	const name = "TestC15Placeholder"
-	rec := evid.New("C15", name, "1..4 connections (through a real Server over an in-memory listener in a synctest bubble) or 2..6 goroutines calling HandleRequest directly, each issuing 0..2 requests that are rejected at message level (unsupported version, batch count mismatch, Undo) followed by 1..4 requests of 1..6 placeholder actions (set / read / read-or-id / clear / fail / set-then-fail); "+
+	rec := evid.New("C15", name, "1..4 connections (through a real Server over an in-memory listener in a synctest bubble) or 2..6 goroutines calling HandleRequest directly, each issuing 0..2 requests that are rejected at message level (unsupported version, batch count mismatch, Undo) followed by 1..4 requests of 1..6 placeholder actions (set / read / read-or-id / clear / fail / set-then-fail, each item optionally carrying a non-critical message extension); "+
 		"rendezvous items inside the first request of every connection force the requests to overlap in time at chosen items; values are unique per request; oracle: per-request placeholder model (empty at start, set visible to later items, never a foreign value); "+
 		"non-trivial = set followed by read in a request that overlaps another one, or a second request on a connection after a set; distinct by case").Attach(t)
 	if rp := evid.LoadReplay(name); rp != nil {
@@ -363,7 +370,11 @@ func TestC15Placeholder(t *testing.T) {
 				n := rapid.IntRange(1, 6).Draw(rt, "items")
 				var as []string
 				for i := 0; i < n; i++ {
-					as = append(as, rapid.SampledFrom(actions).Draw(rt, "action"))
+					a := rapid.SampledFrom(actions).Draw(rt, "action")
+					if rapid.IntRange(0, 4).Draw(rt, "ext") == 0 {
+						a += "+ext"
+					}
+					as = append(as, a)
 				}
 				if ri == pro {
 					// interleave exactly `syncs` rendezvous items at drawn positions
@@ -374,6 +385,7 @@ func TestC15Placeholder(t *testing.T) {
 				}
 				sawSet := false
 				for _, a := range as {
+					a = strings.TrimSuffix(a, "+ext")
 					if a == "set" {
 						sawSet = true
 					}
@@ -383,7 +395,7 @@ func TestC15Placeholder(t *testing.T) {
 				}
 				if ri > pro {
 					for _, a := range reqs[ri-1] {
-						if a == "set" {
+						if strings.TrimSuffix(a, "+ext") == "set" {
 							nt = true
 						}
 					}
